@@ -20,10 +20,11 @@ type c17Step struct {
 }
 
 type c17Params struct {
-	Cap      int       `json:"cap"`      // capacity increment of the receiving world
-	PreReset int       `json:"prereset"` // entities created (and Reset away) in the receiving world before the load
-	PreEmpty bool      `json:"preempty"` // ... all of them removed again before the Reset
-	ViaJSON  bool      `json:"viajson"`  // pass the dump through JSON
+	Cap      int       `json:"cap"`              // capacity increment of the receiving world
+	PreReset int       `json:"prereset"`         // entities created (and Reset away) in the receiving world before the load
+	PreEmpty bool      `json:"preempty"`         // ... all of them removed again before the Reset
+	ViaJSON  bool      `json:"viajson"`          // pass the dump through JSON
+	Indent   bool      `json:"indent,omitempty"` // ... written with json.MarshalIndent
 	H2       []c17Step `json:"h2"`
 	// RemoveAllFirst: the continuation starts with Batch.RemoveEntities(All()) in both worlds.
 	RemoveAllFirst bool `json:"removeallfirst,omitempty"`
@@ -111,6 +112,10 @@ func dumpLoadContinuationBody(sim *core.Sim, p *c17Params, cs *core.Case) {
 	loadDump := dump
 	if p.ViaJSON {
 		js, err := json.Marshal(dump)
+		if p.Indent {
+			// the same JSON value in encoding/json's indented form
+			js, err = json.MarshalIndent(dump, "", "  ")
+		}
 		if err != nil {
 			c17Fail(sim, "EntityDump does not marshal: %v", err)
 			return
@@ -319,6 +324,9 @@ func dumpLoadContinuationBody(sim *core.Sim, p *c17Params, cs *core.Case) {
 		}
 		if p.ViaJSON {
 			cs.Label("dump passed through JSON")
+			if p.Indent {
+				cs.Label("dump passed through indented JSON")
+			}
 		}
 	}
 }
@@ -389,6 +397,18 @@ func entityJSONRoundTrip(t *testing.T, st *core.Stats) {
 		id := rapid.OneOf(rapid.Uint32(), rapid.SampledFrom([]uint32{0, 1, 255, 256, 1<<31 - 1, 1 << 31, 1<<32 - 1})).Draw(rt, "id")
 		gen := rapid.OneOf(rapid.Uint32(), rapid.SampledFrom([]uint32{0, 1, 1<<32 - 1})).Draw(rt, "gen")
 		src := fmt.Sprintf("[%d,%d]", id, gen)
+		// the same JSON value with insignificant white space (what json.MarshalIndent, json.Indent or
+		// another writer produce)
+		ws := rapid.SliceOfN(rapid.SampledFrom([]string{"", "", " ", "\n", "\t", "\r\n  "}), 5, 5).Draw(rt, "ws")
+		spaced := fmt.Sprintf("%s[%s%d%s,%s%d%s]", ws[0], ws[1], id, ws[2], ws[3], gen, ws[4])
+		var es ecs.Entity
+		if err := json.Unmarshal([]byte(spaced), &es); err != nil || es.ID() != id || es.Generation() != gen {
+			rt.Fatalf("C17 violated: %q unmarshals to %v (%v)", spaced, es, err)
+		}
+		var ea [1]ecs.Entity
+		if err := json.Unmarshal([]byte("["+spaced+"]"), &ea); err != nil || ea[0] != es {
+			rt.Fatalf("C17 violated: %q inside an array unmarshals to %v (%v)", spaced, ea[0], err)
+		}
 		var e ecs.Entity
 		if err := json.Unmarshal([]byte(src), &e); err != nil {
 			rt.Fatalf("C17 violated: Entity does not unmarshal from %s: %v", src, err)
@@ -422,7 +442,7 @@ func TestC17(t *testing.T) {
 		Once: func(t *testing.T, st *core.Stats) {
 			t.Run("json", func(t *testing.T) { entityJSONRoundTrip(t, st) })
 		},
-		Rule: "the dump is a value (the loaded world's later life must not change it, and loading it a second time after the continuation reproduces the state at dump time); pre-history of single and batch creations, removals, RemoveEntities and Reset (any free-list shape) on a world of generated capacity increment; then DumpEntities, optionally through encoding/json, LoadEntities into a fresh or a used-and-reset world (entities still alive, or all removed, at the Reset) of another generated capacity increment; EntityDump.Alive equals the source's Query(All()) id order (as documented); then a generated continuation of NewEntity, NewBatchQ(n) and RemoveEntity applied to both worlds; oracle: Alive equal for every handle issued since the source's last reset and for all later ones after every continuation step, handles issued during the continuation identical in both worlds and never issued before, the loaded world's dump equals the source's (Entities, Next, Available, alive ids as a set) before and after the continuation, used count equal, loading into the non-empty source world panics and changes nothing; in a quarter of the cases the source world goes on (creations/removals) between the dump and the load, and the loaded world must equal one loaded from a deep copy taken at dump time; separately, Entity JSON round trips for arbitrary (id, generation); non-trivial = free list of length >= 2 at dump time and a continuation that creates more entities than the free list holds",
+		Rule: "the dump is a value (the loaded world's later life must not change it, and loading it a second time after the continuation reproduces the state at dump time); pre-history of single and batch creations, removals, RemoveEntities and Reset (any free-list shape) on a world of generated capacity increment; then DumpEntities, optionally through encoding/json, LoadEntities into a fresh or a used-and-reset world (entities still alive, or all removed, at the Reset) of another generated capacity increment; EntityDump.Alive equals the source's Query(All()) id order (as documented); then a generated continuation of NewEntity, NewBatchQ(n) and RemoveEntity applied to both worlds; oracle: Alive equal for every handle issued since the source's last reset and for all later ones after every continuation step, handles issued during the continuation identical in both worlds and never issued before, the loaded world's dump equals the source's (Entities, Next, Available, alive ids as a set) before and after the continuation, used count equal, loading into the non-empty source world panics and changes nothing; in a quarter of the cases the source world goes on (creations/removals) between the dump and the load, and the loaded world must equal one loaded from a deep copy taken at dump time; separately, Entity JSON round trips for arbitrary (id, generation) and generated insignificant white space (the dump too goes through json.MarshalIndent in half of the JSON cases); non-trivial = free list of length >= 2 at dump time and a continuation that creates more entities than the free list holds",
 		Finish: func(rt *rapid.T, sim *core.Sim, tr *tracker) {
 			p := &c17Params{
 				Cap:      rapid.SampledFrom([]int{1, 2, 3, 8, 128}).Draw(rt, "loadcap"),
@@ -430,6 +450,7 @@ func TestC17(t *testing.T) {
 				ViaJSON:  rapid.Bool().Draw(rt, "viajson"),
 				PreEmpty: rapid.Bool().Draw(rt, "preempty"),
 			}
+			p.Indent = p.ViaJSON && rapid.Bool().Draw(rt, "indent")
 			// (RemoveAllFirst is not generated any more: the order in which a bulk removal recycles ids is
 			// not specified, see DESIGN 8.3; replay files that carry it are still honoured)
 			if rapid.IntRange(0, 5).Draw(rt, "pad64") == 0 {
